@@ -64,10 +64,12 @@ def register(prop, run, KERNELS, C01_COVERS):
     prop("C19",
          quick=[run("C19_open", covers=["done"], nmax=3),
                 run("C19_keyonly", covers=["done", "some-reads"], nmax=2, preop=0),
-                run("C19_keyonly", covers=["done", "some-reads"], nmax=1, preop=1)],
+                run("C19_keyonly", covers=["done", "some-reads"], nmax=1, preop=1),
+                run("C19_race", covers=["done", "preempted"], nmin=1, nmax=1, vlenmin=1, preemptions=1)],
          thorough=[run("C19_open", covers=["done"], nmax=4, klen=2, vlen=2),
                    run("C19_keyonly", covers=["done", "some-reads"], nmax=2, preop=1, budget=3000),
-                   run("C19_keyonly", covers=["done", "some-reads"], nmin=3, nmax=3, preop=0, budget=3000)],
+                   run("C19_keyonly", covers=["done", "some-reads"], nmin=3, nmax=3, preop=0, budget=3000),
+                   run("C19_race", covers=["done", "preempted"], nmin=1, nmax=2, vlenmin=1, preemptions=2, budget=3000)],
          outside=["files holding more than 3 / 4 items", "values longer than 2 bytes"],
          text=step_txt + "The harness StoreFile logs every read; the independent decoder supplies the byte ranges of every value and of the root record; assertion: opening reads only the root record (at most 2 reads, none below it), key-only operations issue no read intersecting any value range.",
          note=NOTE, technique=TECH, design_ref="DESIGN.md §4 C19")
@@ -137,8 +139,12 @@ def register(prop, run, KERNELS, C01_COVERS):
 
     prop("C15",
          quick=[run("C15_hist", covers=["done"], store=1, k=3, snaps=1, readback=1, opmask=mask(0, 1, 2, 3, 4, 6, 7, 13, 14)),
-                run("C15_hist", covers=["done"], store=0, k=3, snaps=1, readback=1, opmask=mask(0, 1, 4, 6, 8, 12, 14))],
-         thorough=[run("C15_hist", covers=["done"], store=1, k=4, snaps=1, readback=1, opmask=mask(0, 1, 2, 3, 4, 6, 7, 13, 14), budget=3000),
+                run("C15_hist", covers=["done"], store=0, k=3, snaps=1, readback=1, opmask=mask(0, 1, 4, 6, 8, 12, 14)),
+                run("C15_hist", covers=["done"], store=1, k=2, snaps=1, readback=1, init=1, opmask=mask(2, 3, 13, 14, 17)),
+                run("C15_get", store=1)],
+         thorough=[run("C15_get", store=1),
+                   run("C15_hist", covers=["done"], store=1, k=3, snaps=1, readback=1, init=2, opmask=mask(0, 1, 2, 3, 4, 6, 13, 14, 17), budget=3000),
+                   run("C15_hist", covers=["done"], store=1, k=4, snaps=1, readback=1, opmask=mask(0, 1, 2, 3, 4, 6, 7, 13, 14), budget=3000),
                    run("C15_hist", covers=["done"], store=0, k=4, snaps=2, readback=1, opmask=mask(0, 1, 4, 5, 6, 8, 12, 14), budget=3000)],
          outside=["histories longer than K = 3..4 steps", "more than collections a, b"],
          text=hist_txt + "ItemAlloc/ItemAddRef/ItemDecRef callbacks keep a count per *Item: no count may drop below zero, every item handed to the caller or cached in an open handle must have a positive count, and after closing the store and all snapshots every count must be back to the caller's own references.",
